@@ -26,7 +26,7 @@ ASSUMPTIONS = ['fit clause: loss <= loss_uniform*(1+1e-9); exactness clause as C
                'LocalInference takes explicit query matrices (it has no fix_measurements step), so queries are never None here',
                'the pairwise-convex oracle needs cvxopt (not installed) and is not part of the quantifier']
 PLAN = {
-    'quick': dict(cases=162, budget_s=90, case_timeout=600, min_cases=50),
+    'quick': dict(cases=162, budget_s=180, case_timeout=600, min_cases=30),
     'thorough': dict(cases=1500, budget_s=1200, case_timeout=1200, min_cases=250),
 }
 ITERS = [1, 2, 3, 5, 10, 20, 51, 52, 60, 100, 200, 1000]
